@@ -526,6 +526,9 @@ class Evaluator:
         if info is None:
             return None
         _, fields, cnode, _ = info
+        if isinstance(cnode, ast.Call):   # functional collections.namedtuple(...)
+            out = [self.ctor_field(val, f) for f in fields]
+            return None if any(x is None for x in out) else out
         bases = []
         for b in cnode.bases:
             try:
@@ -732,7 +735,73 @@ class Evaluator:
     def s_Continue(self, st, fr):
         return ("loopexit", "continue")
 
+    def _contextmanager_body(self, st, fr):
+        """`with G(args): body` where G is a repo generator function decorated with contextlib.contextmanager: G's body with its single
+        top-level (or try-level) `yield` statement replaced by the with-body, G's locals renamed apart and its parameters bound to the
+        call's arguments.  None if the shape is not recognised."""
+        import copy
+        if len(st.items) != 1 or st.items[0].optional_vars is not None or not isinstance(st.items[0].context_expr, ast.Call):
+            return None
+        c = st.items[0].context_expr
+        if not isinstance(c.func, ast.Name) or c.keywords and any(k.arg is None for k in c.keywords):
+            return None
+        tgt = self.p.resolve_name(fr.module.name, c.func.id)
+        look = self.p.lookup(tgt) if tgt else None
+        if look is None or look[0] != "func":
+            return None
+        g = look[1]
+        decs = {(d.id if isinstance(d, ast.Name) else getattr(d, "attr", "")) for d in g.decorator_list}
+        if "contextmanager" not in decs or g.args.vararg or g.args.kwarg or g.args.kwonlyargs:
+            return None
+        yields = [n for n in ast.walk(g) if isinstance(n, (ast.Yield, ast.YieldFrom))]
+        if len(yields) != 1 or isinstance(yields[0], ast.YieldFrom):
+            return None
+        body = copy.deepcopy(g.body)
+        params = [a.arg for a in g.args.posonlyargs + g.args.args]
+        local = set(params) | {n.id for b in body for n in ast.walk(b) if isinstance(n, ast.Name) and isinstance(n.ctx, ast.Store)}
+        ren = {n_: f"__cm{st.lineno}_{n_}" for n_ in local}
+        for b in body:
+            for n in ast.walk(b):
+                if isinstance(n, ast.Name) and n.id in ren:
+                    n.id = ren[n.id]
+
+        def splice(stmts):
+            out, hit = [], False
+            for x in stmts:
+                if isinstance(x, ast.Expr) and isinstance(x.value, ast.Yield):
+                    out.extend(st.body)
+                    hit = True
+                elif isinstance(x, ast.Try) and not hit:
+                    nb, h2 = splice(x.body)
+                    if h2:
+                        x.body = nb
+                        hit = True
+                    out.append(x)
+                else:
+                    out.append(x)
+            return out, hit
+        new_body, hit = splice(body)
+        if not hit:
+            return None
+        # bind the parameters
+        args = [self.expr(a, fr) for a in c.args]
+        kws = {k.arg: self.expr(k.value, fr) for k in c.keywords}
+        defaults = dict(zip(params[len(params) - len(g.args.defaults):], g.args.defaults))
+        for i, p_ in enumerate(params):
+            if i < len(args):
+                fr.env[ren[p_]] = args[i]
+            elif p_ in kws:
+                fr.env[ren[p_]] = kws[p_]
+            elif p_ in defaults:
+                fr.env[ren[p_]] = self.expr(defaults[p_], fr)
+            else:
+                return None
+        return new_body
+
     def s_With(self, st, fr):
+        cm = self._contextmanager_body(st, fr)
+        if cm is not None:
+            return self.block(cm, fr)
         for item in st.items:
             v = self.expr(item.context_expr, fr)
             self.event(fr, "with", v, st)
@@ -780,6 +849,25 @@ class Evaluator:
         # closures referenced before definition in an enclosing (already finished) frame are in closure env
         tgt = self.p.resolve_name(fr.module.name, e.id)
         if tgt is not None:
+            # a private module-level constant (a string label, or a tuple/set of names and constants) is its literal value
+            last = tgt.rsplit(".", 1)[-1]
+            if last.startswith("_") and not last.startswith("__") and tgt.startswith("genjax.") and tgt not in getattr(self, "_const_stack", ()):
+                look = self.p.lookup(tgt)
+                if look is not None and look[0] == "value" and look[3] is None:
+                    v_ = look[1]
+                    simple = isinstance(v_, ast.Constant) and isinstance(v_.value, str)
+                    coll = isinstance(v_, (ast.Tuple, ast.Set, ast.List)) and all(isinstance(x, (ast.Constant, ast.Name, ast.Attribute)) for x in v_.elts) and last.isupper()
+                    if simple or coll:
+                        m_ = look[2]
+                        # bound exactly once in its module
+                        n_bind = sum(1 for st in m_.tree.body if isinstance(st, (ast.Assign, ast.AnnAssign)) for t in (st.targets if isinstance(st, ast.Assign) else [st.target])
+                                     if isinstance(t, ast.Name) and t.id == last)
+                        if n_bind == 1:
+                            self._const_stack = getattr(self, "_const_stack", ()) + (tgt,)
+                            try:
+                                return self.expr(v_, Frame(self, m_, m_.name + ".<module>"))
+                            finally:
+                                self._const_stack = self._const_stack[:-1]
             return ("name", tgt)
         if e.id in BUILTINS or e.id in ("True", "False", "None"):
             return ("name", "builtins." + e.id)
@@ -798,6 +886,12 @@ class Evaluator:
                 return v
         if base[0] == "name":
             return ("name", self.p.canonical(base[1] + "." + name))
+        if base[0] == "scan_final" and base[1] in self.scans:
+            # the final carry of a scan whose carry is a record: field access by name is the positional component
+            init_ = self.scans[base[1]].get("init")
+            info_ = self.ctor_info(init_) if isinstance(init_, tuple) and init_ and init_[0] == "call" else None
+            if info_ is not None and name in info_[1]:
+                return ("idx", base, C(info_[1].index(name)))
         if base[0] == "ifexp" and base[2] != NORET and base[3] != NORET and (is_const(base[2], None) != is_const(base[3], None)):
             # attribute access on None raises: on every path that continues, the value comes from the arm that is not None
             return self.attr(base[3] if is_const(base[2], None) else base[2], name, fr)
@@ -816,6 +910,17 @@ class Evaluator:
         if call[0] != "call" or call[1][0] != "name":
             return None
         r = self.p.lookup(call[1][1])
+        if r is not None and r[0] == "value" and isinstance(r[1], ast.Call):
+            # X = collections.namedtuple("X", ["a", "b"]) / namedtuple("X", "a b"): a record type with these fields
+            fn_ = r[1].func
+            nm_ = fn_.id if isinstance(fn_, ast.Name) else getattr(fn_, "attr", "")
+            if nm_ == "namedtuple" and len(r[1].args) >= 2:
+                spec = r[1].args[1]
+                if isinstance(spec, (ast.List, ast.Tuple)) and all(isinstance(x, ast.Constant) and isinstance(x.value, str) for x in spec.elts):
+                    return call[1][1], [x.value for x in spec.elts], r[1], r[2]
+                if isinstance(spec, ast.Constant) and isinstance(spec.value, str):
+                    return call[1][1], spec.value.replace(",", " ").split(), r[1], r[2]
+            return None
         if r is None or r[0] != "class":
             return None
         fields = self.p.dataclass_fields(r[1])
@@ -1563,8 +1668,11 @@ class Evaluator:
 
     def carry_of(self, sid, init):
         it = self.known_items(init)
-        if it is not None:
+        if it is not None and init[0] in ("tuple", "list"):
             return (init[0], tuple(("scan_carry", sid, i) for i in range(len(it))))
+        if it is not None and init[0] == "call" and self.ctor_info(init) is not None:
+            # a record-valued carry (NamedTuple / namedtuple): the same record of the per-component carries, so that field access works
+            return ("call", init[1], tuple(("scan_carry", sid, i) for i in range(len(it))), ())
         return ("scan_carry", sid, None)
 
     def axes_list(self, in_axes, n):
